@@ -82,6 +82,22 @@ def subst(t, env):
     return t
 
 
+def _exits(t):
+    """the branch leaves the loop (break / return) and does not update loop state"""
+    leaves, sets = [False], [False]
+
+    def w(x):
+        if isinstance(x, tuple) and x:
+            if x[0] in ("break", "return"):
+                leaves[0] = True
+            if x[0] in ("set", "setop"):
+                sets[0] = True
+            for y in x[1:]:
+                w(y)
+    w(t)
+    return leaves[0] and not sets[0]
+
+
 def loop_step(term, inputs):
     """First `for` loop of the term: (range term, initial values of mutable vars, exit condition, updates)"""
     init = {}
@@ -123,9 +139,13 @@ def loop_step(term, inputs):
                 old = env.get(st[3][1], ("var", st[3][1]))
                 env[st[3][1]] = (st[1], old, subst(erase(st[4], inputs), env))
             elif st[0] == "if" and len(st) == 4:
-                exit_cond = subst(erase(st[1], inputs), env)
-                exit_val = st[2]
-                run(st[3])
+                c, ex, cont = st[1], st[2], st[3]
+                if not _exits(ex) and _exits(cont):
+                    # (if c continue exit): orientation is irrelevant, the exit test is `not c`
+                    c, ex, cont = ("un", "not", "bool", c), cont, ex
+                exit_cond = subst(erase(c, inputs), env)
+                exit_val = ex
+                run(cont)
     run(loop[3])
     updates = {k: v for k, v in env.items() if k in init}
     # canonical role names for the mutable variables, by order of declaration
